@@ -101,6 +101,8 @@ var ExcludedForms = []ExcludedForm{
 	{"dash_json_after", "DashK%d *int32 `parquet:\"-\" json:\"k\"`", ""},
 	{"dash_slice", "DashS%d []string `parquet:\"-\"`", ""},
 	{"dash_iface", "DashI%d interface{} `parquet:\"-\"`", ""},
+	{"dash_escaped_quote", "DashE%d string `example:\"\\\"n/a\\\"\" parquet:\"-\"`", ""},
+	{"dash_many_keys", "DashN%d int32 `a:\"1\" b:\"x y\" parquet:\"-\" c:\"z:w\"`", ""},
 	{"multi_name_unexported", "ma%d, mb%d int32", ""},
 	// "share": the excluded name is ADDED TO THE DECLARATION of the exported field that follows
 	// (F1 int32 becomes F1, hid1 int32); at the end of a struct it degrades to an inserted field
